@@ -3,43 +3,35 @@ package main
 import (
 	"fmt"
 	"sort"
-
-	"github.com/zen-eth/shisui/portalwire"
 )
 
-// constgen prints coq/Gen/Constants.v from the constants as compiled from the current /repo tree.
-func init() { registry["constgen"] = runConstgen }
-
-var extraConsts = []func() map[string]uint64{}
-
-func runConstgen(c *Ctx) {
-	m := portalwire.VerifConstants()
-	for _, f := range extraConsts {
-		for k, v := range f() {
-			m[k] = v
-		}
-	}
+// emitConsts prints one coq/Gen/K_<group>.v from constants compiled from the current /repo tree.
+func emitConsts(c *Ctx, group string, m map[string]uint64, lists map[string][]uint64) {
 	keys := make([]string, 0, len(m))
 	for k := range m {
 		keys = append(keys, k)
 	}
 	sort.Strings(keys)
-	c.Emit("(* GENERATED on every run by `harness constgen` from the Go constants compiled from /repo. Do not edit. *)")
+	c.Emit("(* GENERATED on every run by `harness constgen_%s` from the Go constants compiled from /repo. Do not edit. *)", group)
 	c.Emit("From Coq Require Import NArith List.")
 	c.Emit("Import ListNotations.")
 	c.Emit("Open Scope N_scope.")
-	c.Emit("Module K.")
 	for _, k := range keys {
-		c.Emit("Definition %s : N := %d.", k, m[k])
+		c.Emit("Definition K_%s : N := %d.", k, m[k])
 	}
-	vs := portalwire.VerifVersions()
-	s := ""
-	for i, v := range vs {
-		if i > 0 {
-			s += "; "
+	lk := make([]string, 0, len(lists))
+	for k := range lists {
+		lk = append(lk, k)
+	}
+	sort.Strings(lk)
+	for _, k := range lk {
+		s := ""
+		for i, v := range lists[k] {
+			if i > 0 {
+				s += "; "
+			}
+			s += fmt.Sprint(v)
 		}
-		s += fmt.Sprint(v)
+		c.Emit("Definition K_%s : list N := [%s].", k, s)
 	}
-	c.Emit("Definition Versions : list N := [%s].", s)
-	c.Emit("End K.")
 }
